@@ -107,7 +107,9 @@ def step (s : CState) (ws : List String) : Option (CState × String) :=
     | some now, some m =>
       let (s', o, tc, h) := handleResponse s now m
       let tcs := String.join (tc.map fun | .throttled => " T" | .notThrottled => " N")
-      some (s', "ok" ++ showOuts o ++ tcs ++ " H=" ++ showHandled h)
+      -- chronological order: the sweep of `get`, the throttle-handler call, then the rest
+      let n := (Corr.get s now m).2.1.length
+      some (s', "ok" ++ showOuts (o.take n) ++ tcs ++ showOuts (o.drop n) ++ " H=" ++ showHandled h)
     | _, _ => some (s, "bad-op")
   | ["c.hdel", now, m] =>
     match now.toNat?, parseMsg m with
